@@ -348,7 +348,8 @@ def judgeLine (s0 : JState) (line : String) : JState :=
       let s := useLive (useLive (useLive s "reference-read" line (jOid v)) "reference-read" line (jOid va)) "reference-read" line (jOid vm)
       if v == va && v == vm then s else s.flag s!"reference-reads-differ {line}"
     | ["r", "aa", a, _v, res] => if res == "ok" then useLive (stepEvent s) "add_action" line (jOid a) else s
-    | ["r", "cmd", _a, _v, _res] => stepEvent s   -- the issuer may have been destructed by the action it triggered
+    | ["r", "cmd", _a, _v, _res] => stepEvent s
+    | ["r", "ra", a, _v, res] => if res == "!gone" then s else useLive (stepEvent s) "remove_action" line (jOid a)   -- the issuer may have been destructed by the action it triggered
     | ["r", "ld", _n, v, k, lv] =>
       let s := stepEvent s
       let s := useLive s "loaded" line (jOid v)
